@@ -36,7 +36,7 @@ def demo(seed, root, libdir):
     d = os.path.join(seed, "demo.py")
     if not os.path.exists(d):
         return None
-    env = dict(os.environ, CIDER_REPO=root, CIDER_LIBDIR=libdir, PYTHONPATH="/tmp/ciderbuild:" + os.path.join(VERIF, "tools", "seedlib"),
+    env = dict(os.environ, CIDER_REPO=root, CIDER_LIBDIR=libdir, PYTHONPATH=os.path.join(VERIF, "tools", "seedlib"),
                OMP_NUM_THREADS=os.environ.get("OMP_NUM_THREADS", "4"))
     try:
         r = run([PY, d], cwd=root, env=env, timeout=3000)
